@@ -224,7 +224,10 @@ type chanCase struct {
 	sc        *chanmodel.Scenario
 	ex        *chanmodel.Explorer
 	maxStates int
+	cfg       map[string]any
 }
+
+func (c *chanCase) SimCfg() map[string]any { return c.cfg }
 
 func newCase(sc *chanmodel.Scenario, maxStates int) *chanCase {
 	sc.Normalise()
@@ -255,8 +258,12 @@ func (c *chanCase) Judge(res *simpool.Result) *scripteng.Verdict {
 }
 func (c *chanCase) Candidates() []scripteng.Case {
 	var out []scripteng.Case
+	if len(c.sc.Gs) > 0 && len(c.sc.Gs[0]) > 400 {
+		return nil // the long liveness scenario is its own minimal form
+	}
 	for _, sc := range candidates(c.sc) {
 		if nc := newCase(sc, c.maxStates); nc != nil {
+			nc.cfg = c.cfg
 			out = append(out, nc)
 		}
 	}
@@ -315,6 +322,17 @@ func spec(opt Options) scripteng.Spec {
 		if c == nil {
 			panic("curated scenario invalid or too large")
 		}
+		sp.Curated = append(sp.Curated, c)
+	}
+	if !opt.Callbacks {
+		// liveness: two goroutines ping-pong for a long time while a third sleeps briefly. With a wall clock that
+		// advances 3 ms per scheduler step, a runtime that never returns to the event loop consumes far more
+		// than the starvation bound (5 simulated seconds) inside one loop turn; a sane time slice never does.
+		c := newCase(pingPongWithSleeper(1200), 2000000)
+		if c == nil {
+			panic("ping-pong scenario too large")
+		}
+		c.cfg = map[string]any{"tickDeltas": []int{3}, "tickWeights": []int{1}, "budget": 400000, "yieldWeights": []int{1, 0}}
 		sp.Curated = append(sp.Curated, c)
 	}
 	nCur := len(opt.Curated)
